@@ -665,6 +665,7 @@ class RTCSctpTransport(AsyncIOEventEmitter):
         self._fast_recovery_exit = None
         self._fast_recovery_transmit = False
         self._forward_tsn_chunk: Optional[ForwardTsnChunk] = None
+        self._forward_tsn_pending: Optional[ForwardTsnChunk] = None
         self._flight_size = 0
         self._local_tsn = random32()
         self._last_sacked_tsn = tsn_minus_one(self._local_tsn)
@@ -1626,8 +1627,16 @@ class RTCSctpTransport(AsyncIOEventEmitter):
         if uint32_gt(self._last_sacked_tsn, self._advanced_peer_ack_tsn):
             self._advanced_peer_ack_tsn = self._last_sacked_tsn
 
+        # forget the last FORWARD TSN once the peer has caught up with it
+        if self._forward_tsn_pending is not None and uint32_gte(
+            self._last_sacked_tsn, self._forward_tsn_pending.cumulative_tsn
+        ):
+            self._forward_tsn_pending = None
+
         done = 0
         streams = {}
+        if self._forward_tsn_pending is not None:
+            streams.update(self._forward_tsn_pending.streams)
         while self._sent_queue and self._sent_queue[0]._abandoned:
             chunk = self._sent_queue.popleft()
             self._advanced_peer_ack_tsn = chunk.tsn
@@ -1637,9 +1646,14 @@ class RTCSctpTransport(AsyncIOEventEmitter):
 
         if done:
             # build FORWARD TSN
-            self._forward_tsn_chunk = ForwardTsnChunk()
-            self._forward_tsn_chunk.cumulative_tsn = self._advanced_peer_ack_tsn
-            self._forward_tsn_chunk.streams = list(streams.items())
+            self._forward_tsn_pending = ForwardTsnChunk()
+            self._forward_tsn_pending.cumulative_tsn = self._advanced_peer_ack_tsn
+            self._forward_tsn_pending.streams = list(streams.items())
+
+        # (re)send the FORWARD TSN until the peer has caught up with it,
+        # as it may get lost
+        if self._forward_tsn_pending is not None:
+            self._forward_tsn_chunk = self._forward_tsn_pending
 
     def _update_rto(self, R: float) -> None:
         """
